@@ -30,6 +30,10 @@ def throwing_program(rng, modified=True, chained=False, evals=False):
     """Returns (code, {function name or '<top>': 1-based line}).  With evals, the error is thrown from code compiled by eval
     inside two functions of the file, so the stack has several frames whose eval origin lies in the file."""
     L = []
+    first_line_call = (not evals) and rng.random() < 0.35
+    if first_line_call:
+        # the call site is the very first line of the file (function declarations are hoisted): original line 1 is line index 0
+        L.append("thrower(helper('a', 'b'));")
     def filler():
         for _ in range(rng.randrange(0, 4)):
             L.append(rng.choice(["", "// filler", "var pad%d = %d;" % (rng.randrange(99), rng.randrange(9)), "/* c */"]))
@@ -70,7 +74,10 @@ def throwing_program(rng, modified=True, chained=False, evals=False):
     filler()
     code_so_far = "\n".join(L)
     cline = code_so_far.count("\n") + 2
-    L.append("thrower(helper('a', 'b'));")
+    if first_line_call:
+        cline = 1
+    else:
+        L.append("thrower(helper('a', 'b'));")
     code = "\n".join(L) + "\n"
     lines = {"thrower": tline, "<top>": cline}
     if evals:
